@@ -61,6 +61,30 @@ func param(f *ssa.Function, name string) *ssa.Parameter {
 	return nil
 }
 
+// paramOf finds a parameter by its role, not by its name: the only parameter
+// (receiver excluded) whose type ends in typeSuffix. Only when several
+// parameters share the type is the name consulted as a tie-break.
+func paramOf(f *ssa.Function, typeSuffix, nameHint string) *ssa.Parameter {
+	var cands []*ssa.Parameter
+	for i, p := range f.Params {
+		if i == 0 && f.Signature.Recv() != nil {
+			continue
+		}
+		if strings.HasSuffix(p.Type().String(), typeSuffix) {
+			cands = append(cands, p)
+		}
+	}
+	if len(cands) == 1 {
+		return cands[0]
+	}
+	for _, p := range cands {
+		if p.Name() == nameHint {
+			return p
+		}
+	}
+	return nil
+}
+
 // pkgConstInt reads an integer constant declared at package level.
 func pkgConstInt(w *core.World, pkg, name string) (int64, bool) {
 	p := w.Pkg(pkg)
